@@ -712,3 +712,79 @@ def run_c19(rep, tier):
     rep.cov['states'] = done
     rep.cov['transitions'] = done
     rep.cov['states_meaning'] = '(logic, formula, presentation) combinations decided unsat'
+
+
+# ------------------------------------------------------------------ C05
+def run_c05(rep, tier):
+    from . import rewrite, findings
+    rep.level = 'model_checking'
+    rep.assumptions += ['models: all total Kripke structures with 3 states over {p,q} (state formulas) and all (k,l)-lassos with k<=5 positions over {p,q,r} (path formulas); subformulas are atoms, so each per-operator rule is checked as an equivalence schema',
+                        'Boolean constants count as atoms of the restricted alphabet (the rewriter keeps "false"); the formula dimension is enumeration of programs',
+                        'LTL: the restricted language is documented for path formulas; A-rooted LTL formulas are known finding D12']
+    rep.cov['trusted_base'] = TRUSTED
+    rep.cov['explanation'] = ('get_equivalent_restricted_formula and LNot run natively on each enumerated formula; input and output formula are both translated by the reference semantics into circuits over '
+                              'symbolic models and z3 looks for a distinguishing model (no model-checking code involved); alphabet membership and "no leading double negation" are checked on the output tree')
+    findings.report_open(rep, 'C05')
+    P = formulas.par
+    towers = []
+    for base in ['p', '(p or q)', 'X p', '(p U q)', 'G p']:
+        s = base
+        for k in range(1, 6):
+            s = 'not %s' % P(s)
+            towers.append(s)
+    l1 = formulas.ltl_level1(['p', 'q'])
+    l1c = formulas.ltl_level1(formulas.ATOMS4)
+    lv2 = formulas.ltl_paths(2)[2]
+    paths = ['p', 'true', 'false'] + l1c + lv2[::(4 if tier == 'quick' else 1)] + towers
+    paths += ['((p U q) R r)', '(F p --> G (q or X r))', '(p and q and r)', '(p or q or r)', 'not (p and not q and X r)', 'G F p', 'F G (p --> q)', '((p R q) U (q R r))']
+    ctl = formulas.ctl_phi1() + formulas.ctl_pairs()[::(3 if tier == 'quick' else 1)] + formulas.ctl_phi2_quick()[::(9 if tier == 'quick' else 2)]
+    ctl += ['not not E X p', 'not not not A G p', '(p and q and A X p)', '(p or q or E G p)', 'not (p and not q)']
+    ctls_state = ctls_set(tier)[::(2 if tier == 'quick' else 1)] + ['not not A F p', 'not not not E (p U q)']
+    tasks = [('CTL', ch) for ch in chunks(ctl, 12)] + [('CTLS', ch) for ch in chunks(ctls_state, 6)] + [('CTLS', ch) for ch in chunks(paths, 10)] + [('LTL', ch) for ch in chunks(paths, 10)]
+    rep.cov['bounds'].update(n=3, lasso_positions=5, formulas=dict(CTL=len(ctl), CTLS_state=len(ctls_state), CTLS_path=len(paths), LTL_path=len(paths)))
+    done = 0
+    for t, st, recs, secs in pmap(rewrite.rewrite_task, tasks):
+        if st != 'ok':
+            rep.inconclusive('task %s: %s' % (t[0], recs))
+            continue
+        for rec in recs:
+            key = '%s %s' % (rec['logic'], rec['formula'])
+            if rec.get('error'):
+                rep.inconclusive('%s: %s' % (key, rec['error']))
+                rep.obligation(key, 'error')
+                continue
+            v = 'unsat'
+            for c, r in rec['checks'].items():
+                if c != 'skipped' and r != 'unsat':
+                    v = 'sat' if r == 'sat' else (v if v == 'sat' else r)
+            rep.obligation(key, v if not rec['problems'] else 'sat', rec['solver_s'], rec['queries'],
+                           dict(obligation='f, rewritten f and not f / LNot(f) have the same models', logic=rec['logic'], formula=rec['formula'], restricted=rec.get('restricted'),
+                                checks=rec['checks'], syntactic_problems=rec['problems']))
+            if v == 'unsat' and not rec['problems']:
+                done += 1
+            for pr in rec['problems']:
+                path = write_replay_syntax(rec, pr)
+                rep.violation('%s: %s' % (key, pr), path)
+            for which in ('restricted', 'LNot'):
+                for kind, ck in (('structure', which + ' over structures'), ('lasso', which + ' over lassos')):
+                    if rec['checks'].get(ck) == 'sat':
+                        path, out = rewrite.c05_replay(rec, which, kind)
+                        if path:
+                            rep.violation('%s: %s not equivalent (%s): %s' % (key, which, kind, out.strip().splitlines()[-3:-1]), path)
+                        else:
+                            rep.inconclusive('%s: %s counterexample does not reproduce with the explicit evaluators: %s' % (key, which, out[-200:]))
+                    elif rec['checks'].get(ck) not in (None, 'unsat'):
+                        rep.inconclusive('%s: %s is %s' % (key, ck, rec['checks'].get(ck)))
+    rep.cov['programs'] = len(ctl) + len(ctls_state) + 2 * len(paths)
+    rep.cov['states'] = max(done, 1)
+    rep.cov['transitions'] = max(done, 1)
+    rep.cov['states_meaning'] = 'formulas whose rewriting and LNot were proved equivalent on every model of the bound'
+    rep.cov['functions_natively_run'] = ['get_equivalent_restricted_formula (all classes)', 'pyModelChecking.language.LNot']
+
+
+def write_replay_syntax(rec, problem):
+    from .common import write_replay
+    body = ('import importlib\nfrom pyModelChecking.language import LNot\nmod = importlib.import_module(%r)\nf = mod.Parser()(%r)\n'
+            'print("restricted:", f.get_equivalent_restricted_formula(), " LNot:", LNot(f))\nprint("VIOLATION of C05: %s")\nsys.exit(1)\n'
+            % ('pyModelChecking.' + rec['logic'], rec['formula'], problem.replace('"', "'")))
+    return write_replay('C05', body)
